@@ -511,36 +511,76 @@ def table_index(repo, res):
                                     res.fail(key, f"{q}: piecewise table (point axis collapsed to 1) indexed with `{iq}`", m.line(f.node))
                             elif iq in _ZERO or not re.search(r"quadrature_index\.global_index|quadrature_loop_index", iq):
                                 res.fail(key, f"{q}: point axis of a varying table indexed with `{iq}` instead of the quadrature index", m.line(f.node))
-    # predicates: slices compared along one axis, other axes full
+    # predicates and classification: interpreted on sample tables (numpy ndarray model) and compared with the definition
     et = repo.mod(ET)
-    for name, axis in (("is_permuted_table", 0), ("is_uniform_table", 1), ("is_piecewise_table", 2)):
+    from ..absint import Interp as _I, Raised as _R
+    from ..lnodes_model import load_classes as _lc
+    from ..npmodel import NDArr, install_arrays
+
+    def tbl(fn, P=1, E=2, Q=3, D=2):
+        return NDArr([[[[fn(p_, e_, q_, d_) for d_ in range(D)] for q_ in range(Q)] for e_ in range(E)] for p_ in range(P)], (P, E, Q, D))
+
+    base_v = lambda p_, e_, q_, d_: 10 * e_ + 3 * q_ + d_ + 2  # noqa: E731
+    samples = {
+        "zeros": tbl(lambda *a: 0),
+        "empty (no dofs)": tbl(lambda *a: 0, D=0),
+        "ones": tbl(lambda *a: 1),
+        "identity on every entity": tbl(lambda p_, e_, q_, d_: 1 if q_ == d_ else 0, Q=2, D=2),
+        "identity on entity 0 only": tbl(lambda p_, e_, q_, d_: (1 if q_ == d_ else 0) + (5 if e_ == 1 and q_ == 1 and d_ == 0 else 0), Q=2, D=2),
+        "identity block of a non-square table": tbl(lambda p_, e_, q_, d_: 1 if q_ == d_ else 0, Q=3, D=2),
+        "fixed": tbl(lambda p_, e_, q_, d_: d_ + 2),
+        "piecewise": tbl(lambda p_, e_, q_, d_: 10 * e_ + d_ + 2),
+        "constant along the points of entity 0 only": tbl(lambda p_, e_, q_, d_: d_ + 2 + (7 * q_ if e_ == 1 else 0)),
+        "differs at the last point of the last entity, last dof": tbl(lambda p_, e_, q_, d_: 4 + (1 if (e_, q_, d_) == (1, 2, 1) else 0)),
+        "uniform": tbl(lambda p_, e_, q_, d_: 3 * q_ + d_ + 2),
+        "equal on all entities at point 0 only": tbl(lambda p_, e_, q_, d_: 3 * q_ + d_ + 2 + (10 * e_ if q_ > 0 else 0)),
+        "three entities, the last one differs": tbl(lambda p_, e_, q_, d_: 3 * q_ + d_ + 2 + (1 if e_ == 2 else 0), E=3),
+        "varying": tbl(base_v),
+        "varying, points reversed in permutation slice 1": tbl(lambda p_, e_, q_, d_: base_v(0, e_, (2 - q_) if p_ else q_, d_), P=2),
+        "piecewise with two identical permutation slices": tbl(lambda p_, e_, q_, d_: 10 * e_ + d_ + 2, P=2),
+        "three permutation slices, only the last differs": tbl(lambda p_, e_, q_, d_: base_v(0, e_, (2 - q_) if p_ == 2 else q_, d_), P=3),
+        "single point": tbl(base_v, Q=1),
+        "single entity": tbl(base_v, E=1),
+    }
+
+    def spec(t):
+        T = t.data
+        P, E, Q, D = t.shape
+        flat = t.flat()
+        zeros = not flat or all(v == 0 for v in flat)
+        ones = bool(flat) and all(v == 1 for v in flat)
+        quad = Q == D and all(T[0][e_][q_][d_] == (1 if q_ == d_ else 0) for e_ in range(E) for q_ in range(Q) for d_ in range(D))
+        pw = all(T[0][e_][q_] == T[0][e_][0] for e_ in range(E) for q_ in range(Q))
+        uni = all(T[0][e_] == T[0][0] for e_ in range(E))
+        perm = any(T[p_] != T[0] for p_ in range(P))
+        ttype = "zeros" if zeros else "ones" if ones else "quadrature" if quad else "fixed" if pw and uni else "piecewise" if pw else "uniform" if uni else "varying"
+        return {"is_zeros_table": zeros, "is_ones_table": ones, "is_quadrature_table": quad, "is_piecewise_table": pw, "is_uniform_table": uni,
+                "is_permuted_table": perm, "analyse_table_type": ttype}
+
+    why = {"is_piecewise_table": "the point axis is collapsed for piecewise tables, so constancy must hold for every point of every entity",
+           "is_uniform_table": "the entity axis is collapsed for uniform tables, so every entity must carry the same values at every point",
+           "is_permuted_table": "tables without a differing permutation slice lose the permutation axis",
+           "is_zeros_table": "zero tables are dropped from the integrand", "is_ones_table": "ones tables are dropped as factors",
+           "is_quadrature_table": "quadrature tables are replaced by the identity", "analyse_table_type": "the class decides which axes are collapsed"}
+    for name in ("is_permuted_table", "is_uniform_table", "is_piecewise_table", "is_zeros_table", "is_ones_table", "is_quadrature_table", "analyse_table_type"):
         g = et.func(name)
         res.functions.add(g.key)
-        key = f"{g.key}:slices"
+        key = f"{g.key}:slices" if name.startswith("is_p") or name == "is_uniform_table" else f"{g.key}:classes" if name == "analyse_table_type" else f"{g.key}:definition"
         res.ob(key)
-        calls = [c for c in calls_in(g.node) if (call_name(c) or "").endswith("allclose")]
-        gens = [n for n in ast.walk(g.node) if isinstance(n, ast.GeneratorExp)]
-        if len(calls) != 1 or len(gens) != 1 or len(calls[0].args) < 2:
-            raise AnalysisError(f"{name}: comparison not recognised")
-        a, b = calls[0].args[:2]
-        if not (isinstance(a, ast.Subscript) and isinstance(b, ast.Subscript) and isinstance(a.slice, ast.Tuple) and isinstance(b.slice, ast.Tuple)
-                and len(a.slice.elts) == 4 and len(b.slice.elts) == 4):
-            raise AnalysisError(f"{name}: compared operands are not 4-axis slices of the table")
-        gen = gens[0].generators[0]
-        var = gen.target.id if isinstance(gen.target, ast.Name) else None
-        rng = ast.unparse(gen.iter).replace(" ", "")
-        if rng not in (f"range(1,table.shape[{axis}])", f"range(table.shape[{axis}])", f"range(0,table.shape[{axis}])"):
-            res.fail(key, f"{name} iterates `{ast.unparse(gen.iter)}`, not every slice of axis {axis}", et.line(g.node))
-        for k in range(4):
-            ta, tb = ast.unparse(a.slice.elts[k]), ast.unparse(b.slice.elts[k])
-            if k == axis:
-                if {ta, tb} != {"0", var}:
-                    res.fail(key, f"{name} compares `{ta}` with `{tb}` on axis {axis} instead of slice 0 with every other slice", et.line(g.node))
-            elif k == 0 and ta == tb == "0":
-                continue  # classification on the unpermuted slice: the other slices hold the same values at permuted points
-            elif not (ta == tb == ":"):
-                res.fail(key, f"{name} restricts axis {k} to `{ta}`/`{tb}`: constancy along axis {axis} is only established for part of the table, but the "
-                         f"whole axis is collapsed (e.g. d/dX0 on quadrilateral facets is constant on facet 0 only)", et.line(g.node))
+        for label, t in samples.items():
+            if not t.size and name not in ("is_zeros_table", "analyse_table_type"):
+                continue  # every other predicate is vacuous on an empty table; the classification tests `zeros` first
+            want = spec(t)[name]
+            if name == "is_quadrature_table" and t.shape[2] != t.shape[3]:
+                want = False
+            try:
+                got = install_arrays(_I(repo, _lc(repo), primary=ET)).call_f(g, [t])
+            except _R as e:
+                got = f"raises {e.what}"
+            if isinstance(got, str) and name != "analyse_table_type" or (got != want if name == "analyse_table_type" else bool(got) != want):
+                res.fail(key, f"{name} on the sample `{label}` {t.shape} gives {got!r}, the definition gives {want!r}: {why[name]}"
+                         + (" (e.g. d/dX0 on quadrilateral facets is constant on facet 0 only)" if "only" in label else ""), et.line(g.node))
+                break
     # reductions
     b = et.func("build_optimized_tables")
     res.functions.add(b.key)
@@ -550,14 +590,6 @@ def table_index(repo, res):
         res.ob(key)
         if not re.search(flag + r"\n\s+(\w+) = \2" + sl, src):
             res.fail(key, f"the {what} axis is not collapsed exactly under its table-type class", et.line(b.node))
-    a = et.func("analyse_table_type")
-    res.functions.add(a.key)
-    key = f"{a.key}:classes"
-    res.ob(key)
-    sa_ = ast.unparse(a.node)
-    if not re.search(r"piecewise = is_piecewise_table\(table", sa_) or not re.search(r"uniform = is_uniform_table\(table", sa_) \
-            or not re.search(r"if piecewise and uniform:\n\s+ttype = 'fixed'\n\s+elif piecewise:\n\s+ttype = 'piecewise'\n\s+elif uniform:\n\s+ttype = 'uniform'\n\s+else:\n\s+ttype = 'varying'", sa_):
-        res.fail(key, "table types are not (fixed, piecewise, uniform, varying) = (both, piecewise only, uniform only, neither)", et.line(a.node))
     key = f"{et.name}:ttype-classes"
     res.ob(key)
     consts = {}
